@@ -28,6 +28,9 @@ SRC = ["SimpleSource", "IslandSource", "ComponentSource"]
 
 
 MUTANTS = [
+    ("tables cached by file name", "AegeanTools/catalogs.py",
+     "def load_table(filename):", "@lru_cache(maxsize=16)\ndef load_table(filename):",
+     "C18-R12"),
     ("csv / tab read with the fast float converter", "AegeanTools/catalogs.py",
      "        t = ascii.read(filename)",
      "        t = ascii.read(filename,\n"
@@ -280,6 +283,19 @@ def run(ctx):
     r9_independent(ctx, prog, cats)
     r10_column_types(ctx, prog, cats)
     r11_exact_parsing(ctx, prog, cats)
+
+    from ..core import shared_state as _shared
+    ctx.rule("C18-R12", "a read returns what the file holds now: no function of catalogs.py memoises (lru_cache, module- or class-level containers, mutable defaults) -- a table cached by file name survives the file being rewritten by save_catalog")
+    _n = 0
+    for _q, _f in sorted(prog.functions.items()):
+        if not (_f.module == cats.name):
+            continue
+        _n += 1
+        _st = _shared(prog, _f)
+        ctx.check("C18-R12", _f, "%s keeps no state between calls" % _f.short,
+                  not _st, "%s: the table read earlier under this name is returned although the file has been rewritten" % "; ".join(d for _, d in _st[:3]),
+                  node=_st[0][0] if _st else _f.node)
+    ctx.floor("C18-R12", _n, 10, "functions examined for shared state")
     # ---------------------------------------------------------------- R3
     ctx.rule("C18-R3", "names ⊆ attributes assigned by the __init__ chain; "
              "as_list and the writer iterate `names`")
